@@ -1,4 +1,195 @@
-import BoboVerif.Model.Decider
-/-! C07 — placeholder header; theorems follow. -/
-namespace Bobo.Decider
-end Bobo.Decider
+import BoboVerif.Model.Tcp
+import BoboVerif.Lemmas.Tcp
+import BoboVerif.Props.C15
+/-!
+C07 (transport side) — the restart announcement survives every interleaving of the survivor's two threads.
+
+The survivor's outgoing pass is `passSmall` (Model/Tcp.lean): the pass split into the steps that the
+device-manager lock makes atomic (R(i) read `resets`; C(i) read `last_comms`; X(i) read the rest and
+decide — for every device; then per `outlist` entry P(i) flags / pre-send / payload; the send; K(i)
+bookkeeping up to `contacted`; T(i) `last_attempt = now`), with the listener thread's steps
+(`incomingPeers`: a RESET-flagged message ⇒ `clear_last`) scheduled by `sched` at ANY boundary between
+them, any number of them, from any device.  Everything below is for every schedule, every outcome
+vector, all clocks, all periods, any number of devices, any queue-empty readings.
+
+"A RESET from device `j` was handled during the pass" is expressed by the device's reset counter:
+it is incremented by `clear_last` and by nothing else.
+-/
+namespace Bobo.Tcp
+variable {Rec : Type}
+
+/-! The helper lemmas (`lcOf`, `rsOf`, `Stable`, `applyInc_stable`, `sendSmall_pres`, `decideSmall_pres`,
+`passSmall_pres`: a property of device `j`'s (last_comms, resets) that a handled RESET cannot falsify
+survives every step of the pass; every `outlist` entry for `j` was chosen by the tree from a
+`last_comms` reading related to the counter it carries) are in Lemmas/Tcp.lean. -/
+
+/-- **`reset_survives_pass`**: for every interleaving — if a RESET from device `j` was handled at any
+point of the pass (its reset counter moved), then at the end of the pass either `last_comms j = 0`
+(so the following passes can only choose RESYNC, see `reset_forces_resync`), or a message to `j` was
+*delivered* in this very pass that had been decided after the last RESET: chosen by the tree from
+`last_comms = 0` (hence a RESYNC when the clock is late, `decided_after_reset_is_resync`). -/
+theorem reset_survives_pass (s : TState Rec) (now : Int) (qE : Nat → Bool) (snap : Msg Rec)
+    (outcome : Nat → Nat × Int) (sched : Point → List (Nat × Nat)) (j : Nat) :
+    let r := passSmall s now qE snap outcome sched
+    rsOf r.1.peers j ≠ rsOf s.peers j →
+      lcOf r.1.peers j = 0 ∨
+      (∃ t a q st, (j, t, rsOf r.1.peers j) ∈ r.2.2 ∧ (outcome j).1 = 0 ∧
+        selectMode s.cfg (now - 0) a q st = some t) := by
+  intro r hne
+  have := passSmall_pres
+    (fun lc rs => rs ≥ rsOf s.peers j ∧ (rs ≠ rsOf s.peers j → lc = 0))
+    (by intro lc rs h; exact ⟨by omega, fun _ => rfl⟩)
+    (fun lc seen => seen ≠ rsOf s.peers j → lc = 0) j
+    (by intro lc1 seen lc rs h1 h2 hge hs; exact h2.2 (by omega))
+    (fun ol lc rs => rs ≥ rsOf s.peers j ∧
+      (rs ≠ rsOf s.peers j → lc = 0 ∨ (∃ t, (j, t, rs) ∈ ol ∧ (outcome j).1 = 0)))
+    (by intro ol lc rs h; exact ⟨by omega, fun _ => Or.inl rfl⟩)
+    s now qE snap outcome sched
+    (by intro ol lc rs h; exact ⟨h.1, fun hn => Or.inl (h.2 hn)⟩)
+    (by intro ol _ t seen hmem herr lc h; exact ⟨h.1, fun _ => Or.inr ⟨t, hmem, herr⟩⟩)
+    ⟨Nat.le_refl _, fun h => absurd rfl h⟩
+  obtain ⟨hall, -, hq⟩ := this
+  rcases hq hne with h0 | ⟨t, hmem, herr⟩
+  · exact Or.inl h0
+  · right
+    obtain ⟨lc, a, q, st, hsel, hlc⟩ := hall t _ hmem
+    rw [hlc hne] at hsel
+    exact ⟨t, a, q, st, hmem, herr, hsel⟩
+
+/-- a message chosen from `last_comms = 0` under a late clock is a RESYNC. -/
+theorem decided_after_reset_is_resync (cfg : Periods) (now a : Int) (q : Bool) (st : Nat) (t : MsgType)
+    (hnow : now ≥ cfg.periodResync) (h : selectMode cfg (now - 0) a q st = some t) : t = .resync := by
+  rw [resync_only _ _ _ _ _ (by omega)] at h
+  split at h
+  · cases h; rfl
+  · cases h
+
+/-- **`reset_forces_resync`**: a pass that starts with `last_comms j = 0` (what `reset_survives_pass`
+leaves behind; also a fresh device manager) and reads a late clock can, under every interleaving,
+only choose RESYNC (or nothing) for `j` — never SYNC, never PING. -/
+theorem reset_forces_resync (s : TState Rec) (now : Int) (qE : Nat → Bool) (snap : Msg Rec)
+    (outcome : Nat → Nat × Int) (sched : Point → List (Nat × Nat)) (j : Nat)
+    (h0 : lcOf s.peers j = 0) (hnow : now ≥ s.cfg.periodResync) :
+    ∀ t seen, (j, t, seen) ∈ (passSmall s now qE snap outcome sched).2.2 → t = .resync := by
+  have := passSmall_pres (fun lc _ => lc = 0) (by intro lc rs h; rfl) (fun lc _ => lc = 0) j
+    (by intro lc1 seen lc rs _ h2 _; exact h2)
+    (fun _ _ _ => True) (by intro ol lc rs _; trivial)
+    s now qE snap outcome sched (by intros; trivial) (by intros; trivial) h0
+  intro t seen hmem
+  obtain ⟨lc, a, q, st, hsel, hlc⟩ := this.1 t seen hmem
+  rw [hlc] at hsel
+  exact decided_after_reset_is_resync _ _ _ _ _ _ hnow hsel
+
+/-- **`resync_until_success`**: and `last_comms j = 0` persists, under every interleaving, until a
+RESYNC to `j` is delivered: at the end of such a pass either it still holds or a RESYNC was
+delivered to `j` in this pass. -/
+theorem resync_until_success (s : TState Rec) (now : Int) (qE : Nat → Bool) (snap : Msg Rec)
+    (outcome : Nat → Nat × Int) (sched : Point → List (Nat × Nat)) (j : Nat)
+    (h0 : lcOf s.peers j = 0) (hnow : now ≥ s.cfg.periodResync) :
+    let r := passSmall s now qE snap outcome sched
+    lcOf r.1.peers j = 0 ∨ (∃ seen, (j, .resync, seen) ∈ r.2.2 ∧ (outcome j).1 = 0) := by
+  intro r
+  have := passSmall_pres (fun lc _ => lc = 0) (by intro lc rs h; rfl) (fun lc _ => lc = 0) j
+    (by intro lc1 seen lc rs _ h2 _; exact h2)
+    (fun ol lc _ => lc = 0 ∨ (∃ t seen, (j, t, seen) ∈ ol ∧ (outcome j).1 = 0))
+    (by intro ol lc rs _; exact Or.inl rfl)
+    s now qE snap outcome sched (by intro ol lc rs h; exact Or.inl h)
+    (by intro ol _ t seen hmem herr lc _; exact Or.inr ⟨t, seen, hmem, herr⟩) h0
+  rcases this.2 with h | ⟨t, seen, hmem, herr⟩
+  · exact Or.inl h
+  · right
+    have ht := reset_forces_resync s now qE snap outcome sched j h0 hnow t seen hmem
+    subst ht
+    exact ⟨seen, hmem, herr⟩
+
+/-- the three statements chained over two passes: a RESET from `j` handled anywhere inside pass 1
+(late clock), whatever the interleavings of both passes — unless a RESYNC decided after the RESET was
+already delivered in pass 1, pass 2 chooses nothing but RESYNC for `j`. -/
+theorem reset_then_next_pass (s : TState Rec) (now₁ now₂ : Int) (qE₁ qE₂ : Nat → Bool) (snap₁ snap₂ : Msg Rec)
+    (oc₁ oc₂ : Nat → Nat × Int) (sched₁ sched₂ : Point → List (Nat × Nat)) (j : Nat)
+    (h1 : now₁ ≥ s.cfg.periodResync) (h2 : now₂ ≥ s.cfg.periodResync) :
+    let r₁ := passSmall s now₁ qE₁ snap₁ oc₁ sched₁
+    rsOf r₁.1.peers j ≠ rsOf s.peers j →
+      (∃ seen, (j, .resync, seen) ∈ r₁.2.2 ∧ (oc₁ j).1 = 0) ∨
+      (∀ t seen, (j, t, seen) ∈ (passSmall r₁.1 now₂ qE₂ snap₂ oc₂ sched₂).2.2 → t = .resync) := by
+  intro r₁ hne
+  rcases reset_survives_pass s now₁ qE₁ snap₁ oc₁ sched₁ j hne with h0 | ⟨t, a, q, st, hmem, herr, hsel⟩
+  · right
+    exact reset_forces_resync r₁.1 now₂ qE₂ snap₂ oc₂ sched₂ j h0 h2
+  · left
+    have := decided_after_reset_is_resync _ _ _ _ _ _ h1 hsel
+    subst this
+    exact ⟨_, hmem, herr⟩
+
+/-! ### the restarted instance -/
+
+/-- **`restart_announces`**: a fresh instance (every device manager as constructed, `flag_reset = True`):
+(1) under every interleaving its first pass with a late clock chooses nothing but RESYNC for any
+device; (2) sequentially, as soon as the clock is also `≥ attempt_resync`, the first pass does hand
+a RESYNC carrying the RESET flag to the wire for every other device; (3) the flag is on every
+message to a device until one is delivered, and on none after (`flag_until_delivered`). -/
+theorem restart_announces (self : String) (cfg : Periods) (urns : List String) (queue : List (Msg Rec))
+    (now : Int) (snap : Msg Rec) (outcome : Nat → Nat × Int) (j : Nat) (u : String)
+    (hu : urns[j]? = some u) (hnow : now ≥ cfg.periodResync) :
+    let s : TState Rec := ⟨self, cfg, queue, urns.map (fun u => (u, Peer.init true))⟩
+    (∀ qE sched t seen, (j, t, seen) ∈ (passSmall s now qE snap outcome sched).2.2 → t = .resync) ∧
+    (u ≠ self → now ≥ cfg.attemptResync →
+      ∃ w, (outIter s now snap outcome).2.find? (fun w => w.peer == j) = some w ∧
+        w.typ = .resync ∧ w.flags = FLAG_RESET ∧ w.payload = snap) ∧
+    (∀ steps, FlagOK true (jlog j (run s steps))) := by
+  intro s
+  have hj : s.peers[j]? = some (u, Peer.init true) := by simp [s, hu]
+  refine ⟨?_, ?_, ?_⟩
+  · intro qE sched t seen hmem
+    exact reset_forces_resync s now qE snap outcome sched j (by simp [lcOf, hj, Peer.init]) hnow t seen hmem
+  · intro hself hatt
+    have hw := outIter_wire s now snap outcome j
+    rw [hj] at hw
+    simp only [Option.bind_some] at hw
+    have hd : decideEntry s.cfg s.self now s.queue.isEmpty (u, (Peer.init true : Peer Rec)) = some (.resync, 0) := by
+      unfold decideEntry
+      simp only [hself, if_false, s]
+      rw [(fresh_first_is_resync cfg now _ hnow hatt).1]
+      rfl
+    rw [hd] at hw
+    exact ⟨_, hw, rfl, rfl, rfl⟩
+  · intro steps
+    exact flag_until_delivered s steps j _ hj
+
+/-! ### non-vacuity, and the defect that was there (F5) -/
+
+/-- survivor "a" with peer "b" in contact (`last_comms = 1000`), one queued change, default periods. -/
+def c07State : TState Nat :=
+  ⟨"a", Periods.default, [⟨[7], [], []⟩], [("a", Peer.init false), ("b", ⟨1000, 1000, 0, false, [], [], []⟩)]⟩
+
+/-- the RESET from "b" (device index 1) is handled while the SYNC to "b" is being sent. -/
+def c07Sched : Point → List (Nat × Nat)
+  | .duringSend 1 => [(1, 1)]
+  | _ => []
+
+/-- current code: the SYNC is delivered but not recorded as contact; `last_comms` stays 0, the counter
+moved — the hypotheses of `reset_survives_pass` / `reset_forces_resync` are met by a real execution. -/
+example :
+    let r := passSmall c07State 1001 (fun _ => false) Msg.empty (fun _ => (0, 1002)) c07Sched
+    r.2.2 = [(1, .sync, 0)] ∧ r.1.peers[1]? = some ("b", ⟨0, 1002, 1, false, [], [], []⟩) ∧
+    rsOf r.1.peers 1 ≠ rsOf c07State.peers 1 ∧ lcOf r.1.peers 1 = 0 := by decide
+
+/-- and the next pass (late clock, 10 s after the attempt) sends the RESYNC. -/
+example :
+    let r := passSmall c07State 1001 (fun _ => false) Msg.empty (fun _ => (0, 1002)) c07Sched
+    (passSmall r.1 1012 (fun _ => true) Msg.empty (fun _ => (0, 1012)) (fun _ => [])).2.2 = [(1, .resync, 1)] := by
+  decide
+
+/-- **`old_overwrites_reset`** (finding F5, the bookkeeping before the fix): the same interleaving —
+decide SYNC; RESET handled during the send; send ok; `last_comms = now` — leaves `last_comms = 1002`:
+the announcement is lost, the next passes choose nothing / PING / SYNC for "b", and no RESYNC is sent
+until a whole `period_resync` of silence has passed (never, while ordinary contact continues). -/
+theorem old_overwrites_reset :
+    let r := passSmallG false c07State 1001 (fun _ => false) Msg.empty (fun _ => (0, 1002)) c07Sched
+    rsOf r.1.peers 1 ≠ rsOf c07State.peers 1 ∧ lcOf r.1.peers 1 = 1002 ∧ r.2.2 = [(1, .sync, 0)] ∧
+    (passSmallG false r.1 1012 (fun _ => true) Msg.empty (fun _ => (0, 1012)) (fun _ => [])).2.2 = [] ∧
+    (passSmallG false r.1 1012 (fun _ => false) Msg.empty (fun _ => (0, 1012)) (fun _ => [])).2.2 = [(1, .sync, 1)] ∧
+    (passSmallG false r.1 1040 (fun _ => true) Msg.empty (fun _ => (0, 1040)) (fun _ => [])).2.2 = [(1, .ping, 1)] := by
+  decide
+
+end Bobo.Tcp
